@@ -94,6 +94,7 @@ package fp
 //
 //@ func (Seq).Find(r, p) result
 //@   prop C12 C04
+//@   option timeout=20
 //@   ensures result.IsDefined() ==> (exists i int :: 0 <= i && i < len(r) && Eq(r[i], result.Get()) && p(r[i]) && (forall j int :: 0 <= j && j < i ==> !p(r[j])))
 //@   ensures !result.IsDefined() ==> (forall i int :: 0 <= i && i < len(r) ==> !p(r[i]))
 //@   ensures Unchanged()
